@@ -713,6 +713,21 @@ package badger
 //@   assert[decoded-before-applied] before call applyChangeSet : called(Unmarshal#1) && ret(Unmarshal#1) == nil
 //@   assert[truncate-at-last-complete-record] before return#12 : result2 == nil && result1 == offset
 
+// addChanges: the change set given is the one marshalled, applied to the in-memory manifest
+// (under the append lock) and written; it is written (length, checksum of the payload, payload)
+// only after it applied without error, and the file is synced before success is reported; an
+// in-memory database writes nothing.
+//@ func (*manifestFile).addChanges
+//@   props C17 C08 C10
+//@   light
+//@   assert[marshal-what-was-given] before call Marshal : changes.Changes == changesParam
+//@   assert[applied-under-lock] before call applyChangeSet : held(mf.appendLock) && arg0 == &mf.manifest
+//@   assert[length-of-payload] before call PutUint32#1 : arg2 == uint32(len(ret0(Marshal#1)))
+//@   assert[checksum-of-payload] before call Checksum : arg0 == ret0(Marshal#1)
+//@   assert[written-only-if-applied] before call Write : called(applyChangeSet#1) && ret(applyChangeSet#1) == nil
+//@   assert[rewrite-only-if-applied] before call rewrite : called(applyChangeSet#1) && ret(applyChangeSet#1) == nil
+//@   assert[synced-before-success] before return : result == nil && !old(mf.inMemory) ==> called(syncFunc#1) && result == ret(syncFunc#1)
+
 //@ func applyChangeSet
 //@   props C17
 //@   light
